@@ -537,6 +537,22 @@ pub async fn build_from_empty(b: &Built, files: &[IgnoreFile]) -> Result<IgnoreF
 	Ok(f)
 }
 
+/// The same lines fed through `add_globs` (the route manual patterns take), one call per ignore file, scoped to the
+/// directory the file applies in.
+pub async fn build_from_globs(b: &Built, files: &[IgnoreFile], from_empty: bool) -> Result<IgnoreFilter, String> {
+	let mut f = if from_empty {
+		IgnoreFilter::empty(&b.origin)
+	} else {
+		IgnoreFilter::new(&b.origin, &[]).await.map_err(|e| e.to_string())?
+	};
+	for file in files {
+		let content = std::fs::read_to_string(&file.path).map_err(|e| e.to_string())?;
+		let lines: Vec<&str> = content.lines().collect();
+		f.add_globs(&lines, file.applies_in.as_ref()).map_err(|e| e.to_string())?;
+	}
+	Ok(f)
+}
+
 pub async fn run(args: &ShardArgs, rep: &mut Report) {
 	let mut rng = args.rng();
 	let n = if args.thorough() { 1500 } else { 140 };
@@ -758,6 +774,8 @@ async fn one_scenario(rep: &mut Report, rng: &mut Rng, sc: &Scenario, root: &Pat
 		("incremental", build_incremental(&built, &built.files).await),
 		("incremental-permuted", build_incremental(&built, &permuted).await),
 		("empty-incremental", build_from_empty(&built, &built.files).await),
+		("globs", build_from_globs(&built, &built.files, false).await),
+		("empty-globs-permuted", build_from_globs(&built, &permuted, true).await),
 	];
 	for (name, f) in variants {
 		let Ok(f) = f else {
